@@ -15,9 +15,10 @@ for f in ("patch.diff", "demo.py", "notes.md"):
 ver = [l for l in open(root + "/verify_summary.txt") if l.startswith(sid + " ")]
 notes = open(os.path.join(src, "notes.md")).read()
 results = {}
+run_dir = os.environ.get("VERIF_RUN_DIR", "/verif")     # a private copy of /verif lets several seeds be recorded in parallel
 env = dict(os.environ, VCHECK_REPO=os.path.join(src, "wt"))
 for c in [sid] + extra:
-    r = subprocess.run(["./check", c], cwd="/verif", capture_output=True, text=True, env=env)
+    r = subprocess.run(["./check", c], cwd=run_dir, capture_output=True, text=True, env=env)
     lines = [l for l in r.stdout.splitlines() if l.startswith("VIOLATION")]
     first = None
     if lines:
@@ -29,7 +30,7 @@ for c in [sid] + extra:
     results[c] = {"exit": r.returncode, "violation_lines": len(lines),
                   "no_failing_input_found": sum("no-failing-input-found" in l for l in lines),
                   "summary": r.stdout.strip().splitlines()[-1] if r.stdout.strip() else "", "first_violation": first}
-    subprocess.run(["git", "-C", "/verif", "checkout", "--", "evidence/%s.json" % c])
+    subprocess.run(["git", "-C", run_dir, "checkout", "--", "evidence/%s.json" % c])
 meta = {
     "property": sid,
     "origin": "written by a sub-agent that saw only the property text and a scratch worktree of /repo (nothing from /verif)",
